@@ -99,23 +99,14 @@ func runSeeded(p *Property, dir string) int {
 		return 3
 	}
 	baseRep := runRules(p, base)
-	baseBad := map[string]bool{}
-	for _, o := range baseRep.Obs {
-		if o.Status == Violated || o.Status == Undecided {
-			baseBad[o.Rule+"|"+o.Construct] = true
-		}
-	}
 	w, err := LoadWorld(*flagRepo, ov, nil, "")
 	if err != nil {
 		fmt.Printf("SEEDED %s skipped: does not compile on the current tree: %v\n", id, err)
 		return 3
 	}
-	rep := runRules(p, w)
-	for _, o := range rep.Obs {
-		if (o.Status == Violated || o.Status == Undecided) && !baseBad[o.Rule+"|"+o.Construct] {
-			fmt.Printf("SEEDED %s caught by [%s] %s\n", id, o.Rule, o.Construct)
-			return 0
-		}
+	for _, o := range newFindings(baseRep, runRules(p, w)) {
+		fmt.Printf("SEEDED %s caught by [%s] %s\n", id, o.Rule, o.Construct)
+		return 0
 	}
 	fmt.Printf("SEEDED %s MISSED by the rules of %s\n", id, p.ID)
 	return 4
